@@ -75,6 +75,7 @@ Definition should_invalidate (t : table) (r : resource) (u : update) : bool :=
 Inductive tev : Type :=
 | TAdd (rid : nat) (tbl : string) (f : filter)
 | TRemove (rid : nat)
+| TRead (rid : nat)      (* a live query's function issues its SELECT; rid = the resource this run registered (0 = none yet) *)
 | TProcess (tbl : string) (k : ekind) (rows : list (list src)) (obs_err : bool) (obs : list (nat * bool)).
 
 Record lcase : Type := mk_lcase { lc_tables : list (string * tmeta); lc_trace : list tev }.
@@ -93,6 +94,10 @@ Fixpoint replay (e : env) (tabs : list (string * tmeta)) (regs : list resource) 
   | [] => []
   | TAdd rid tbl f :: tr' => replay e tabs (insert_res (mk_resource rid tbl f) regs) tr'
   | TRemove rid :: tr' => replay e tabs (List.filter (fun r => negb (Nat.eqb (r_id r) rid)) regs) tr'
+  | TRead rid :: tr' =>
+      (* LiveDB.query registers the dependency before it runs the SELECT: [Read] is only enabled once the
+         run's resource is in the tracker *)
+      (if existsb (fun r => Nat.eqb (r_id r) rid) regs then [] else [3]) ++ replay e tabs regs tr'
   | TProcess tbl k rows obs_err obs :: tr' =>
       match slookup tbl tabs with
       | None => [9]
